@@ -25,8 +25,21 @@ class Built:
         for i, nd in enumerate(nodes, start=1):
             self.obj[i] = self._build(i, nd)
         for t, entries in enumerate(tabs, start=1):
+            done = set()
             for e in entries:
-                self.register(t, e)
+                n = e["n"]
+                if n in done:
+                    continue
+                if self._decorator_eligible(n, t):
+                    # the documented decorator form: @owner.overload([aliases]) def impl(...): ...
+                    aliases = [dec(x["v"]) for x in entries if x["n"] == n]
+                    dn = self.nodes[self.nodes[n - 1]["dflt"] - 1]
+                    f = self.body(dn["f"], 0, n)
+                    owner = self.obj[self.tabowner[t]]
+                    self.obj[n] = owner.overload(aliases if len(aliases) > 1 else aliases[0])(f)
+                    done.add(n)
+                else:
+                    self.register(t, e)
         self.root = self.obj[len(nodes)]
 
     # -- callables -----------------------------------------------------------------------
@@ -261,6 +274,34 @@ class Built:
         if nd.get("effoff"):
             ds.disable_effects()
         return ds
+
+    def _decorator_eligible(self, n, t):
+        """A plain cached dataset (no options, callback, effects, dispatch; body without arguments) that is
+        used only as an overload implementation of table t can be declared with @owner.overload(...)."""
+        nd = self.nodes[n - 1]
+        if self.style.get("picklable") or nd["k"] != "ds" or nd["disp"] or not nd["dflt"] or nd["cb"] or nd["effs"] \
+                or nd.get("cache", "mem") != "mem" or dec(nd["q"]) or dec(nd["dd"]):
+            return False
+        dn = self.nodes[nd["dflt"] - 1]
+        if dn["k"] != "fnapp" or dn["args"]:
+            return False
+        for j, other in enumerate(self.nodes, start=1):
+            for key in ("d", "dom", "arg", "src", "other", "dflt", "inner", "base", "fp", "disp"):
+                if other.get(key) == n and j != n:
+                    return False
+            for key in ("ms", "args"):
+                if n in other.get(key, []):
+                    return False
+            for key in ("lk", "its", "cases", "ps"):
+                for e in other.get(key, []):
+                    if n in (e.get("n"), e.get("c")):
+                        return False
+        if n == len(self.nodes):
+            return False
+        for tt, entries in enumerate(self.tabs, start=1):
+            if tt != t and any(e["n"] == n for e in entries):
+                return False
+        return (n + len(self.nodes)) % 2 == 0   # alternate with the explicit register() form
 
     def _effect(self, name, owner):
         """A constant callable effect, or ("ep") an effect step whose parameter is Option('EP')."""
